@@ -2,42 +2,38 @@ package main
 
 import (
 	"fmt"
+	"math/rand"
 	"os"
-	"strings"
-	"unicode/utf8"
 
-	"github.com/tsawler/tabula/model"
-	"github.com/tsawler/tabula/rag"
+	"github.com/tsawler/tabula"
+
+	"verifharness/fw"
+	"verifharness/gen/pdfw"
 )
 
 func main() {
-	b, _ := os.ReadFile("/dev/shm/c13text.txt")
-	text := string(b)
-	var blocks []rag.ContentBlock
-	for i, t := range strings.Split(text, "\n\n") {
-		blocks = append(blocks, rag.ContentBlock{Type: model.ElementTypeParagraph, Text: t, Page: 1, Index: i})
-	}
-	bs := rag.NewBoundaryDetector().DetectBoundaries(blocks)
-	sc := rag.DefaultSizeConfig()
-	sc.Target = rag.SizeLimit{Value: 25, Unit: rag.SizeUnitWords}
-	sc.Min = rag.SizeLimit{Value: 5, Unit: rag.SizeUnitWords}
-	sc.Max = rag.SizeLimit{Value: 50, Unit: rag.SizeUnitWords, Type: rag.LimitTypeHard}
-	sc.TokensPerChar = 0.3
-	sc.SplitAtSemanticBoundaries = true
-	for k := 0; k < 2; k++ {
-		bs2 := rag.NewBoundaryDetector().DetectBoundaries(blocks)
-		_ = bs
-		ps := rag.NewSizeCalculatorWithConfig(sc).SplitToSize(text, bs2)
-		for i, p := range ps {
-			if !utf8.ValidString(p) {
-				fmt.Printf("fresh boundaries: piece %d invalid: ...%q\n", i, p[len(p)-12:])
-			}
+	r := rand.New(rand.NewSource(3))
+	tk := fw.NewTokens(r)
+	var pages []pdfw.SimplePage
+	for p := 0; p < 3; p++ {
+		pg := pdfw.SimplePage{W: 612, H: 792}
+		pg.Items = append(pg.Items, pdfw.SimpleItem{X: 72, Y: 720, Size: 24, Text: "Chapter " + tk.Next(), Bold: true})
+		y := 680.0
+		for l := 0; l < 4; l++ {
+			pg.Items = append(pg.Items, pdfw.SimpleItem{X: 72, Y: y, Size: 11, Text: tk.Next() + " plain body text of the page goes on here."})
+			y -= 15
 		}
-		fmt.Println("pieces", len(ps))
+		pages = append(pages, pg)
 	}
-	for _, bd := range bs {
-		if !utf8.RuneStart(text[min(bd.Position, len(text)-1)]) {
-			fmt.Printf("boundary %v at %d is inside a character: %q\n", bd.Type, bd.Position, text[bd.Position-4:bd.Position+4])
+	os.WriteFile("/dev/shm/h.pdf", pdfw.SimplePDF(pages), 0o644)
+	show := func(name string, e *tabula.Extractor) {
+		cc, _, err := e.Chunks()
+		fmt.Println("==", name, err)
+		for _, ch := range cc.Chunks {
+			fmt.Printf("  p%d-%d title=%q path=%q types=%v lvl=%d text=%q\n", ch.Metadata.PageStart, ch.Metadata.PageEnd, ch.Metadata.SectionTitle, ch.Metadata.SectionPath, ch.Metadata.ElementTypes, ch.Metadata.HeadingLevel, ch.Text)
 		}
 	}
+	show("whole", tabula.Open("/dev/shm/h.pdf"))
+	show("Pages(2)", tabula.Open("/dev/shm/h.pdf").Pages(2))
+	show("Pages(1)", tabula.Open("/dev/shm/h.pdf").Pages(1))
 }
